@@ -130,6 +130,9 @@ type Engine struct {
 	Observed       []string
 	Samples        []string
 	WitnessInputs  map[string]string
+	Witnesses      []WitnessTrace
+	WitnessMax     int
+	pathReach      []string
 	InitDiag       []string
 	MaxAlloc       int64
 	allocLog       []int64
@@ -149,6 +152,13 @@ type Engine struct {
 	freeSeq        int // concrete replay: index of the next unconditional fork
 }
 
+// WitnessTrace is one completed path made concrete.
+type WitnessTrace struct {
+	Model map[string]string `json:"model"`
+	Order []string          `json:"order"`
+	Reach []string          `json:"reach"`
+}
+
 type injApp struct {
 	args []*Term
 	res  *Term
@@ -165,7 +175,7 @@ func NewEngine(prog *ssa.Program, intMode bool, bigW int) (*Engine, error) {
 		MaxPaths: 2_000_000, MaxViolationsPerLabel: 1,
 		FnEntered: map[string]int{}, ReachHit: map[string]int{}, Bounds: map[string]int64{},
 		KnownHits: map[string]*Violation{}, KnownOpen: map[string]bool{}, labelCount: map[string]int{},
-		WitnessInputs: map[string]string{},
+		WitnessInputs: map[string]string{}, WitnessMax: 6,
 	}
 	var logw *os.File
 	if p := os.Getenv("GOSYM_SMTLOG"); p != "" {
@@ -939,8 +949,19 @@ func (e *Engine) runPath(fn *ssa.Function) {
 			panic(r)
 		}
 	}()
+	e.pathReach = e.pathReach[:0]
 	e.callSSA(nil, 0, fn, nil, nil)
 	e.Completed++
+	// witness traces for translator validation: concrete inputs of some completed paths (the
+	// 1st, 2nd, 4th, 8th, ... completed one) with the Reach tags hit on them; the driver runs
+	// them against the gc-compiled real code and compares
+	if !e.Concrete && len(e.inputs) > 0 && len(e.Witnesses) < e.WitnessMax && e.Completed&(e.Completed-1) == 0 {
+		if e.solver.Check(e.FeasTO) == "sat" {
+			m, order := e.modelNow()
+			e.addFreeChoices(m)
+			e.Witnesses = append(e.Witnesses, WitnessTrace{Model: m, Order: order, Reach: append([]string(nil), e.pathReach...)})
+		}
+	}
 	if len(e.WitnessInputs) == 0 && len(e.inputs) > 0 && !e.Concrete && len(e.inputs) >= e.curMaxInput {
 		// one concrete witness of a completed path, for the evidence samples
 		if e.solver.Check(e.FeasTO) == "sat" {
